@@ -35,9 +35,10 @@ inductive Violation
 
 def afterPkg (after : List AfterFile) : Pkg := after.map (·.file)
 
-/-- what of `d` the declaration `d'` fails to keep -/
+/-- what of `d` the declaration `d'` fails to keep. Bodies are compared in gofmt's canonical form (`canon`,
+supplied by the harness: the generator gofmt-s what it writes); for a gofmt-ed file that is `trim inner`. -/
 def lostParts (d d' : Decl) : List String :=
-  (if trim d'.inner == trim d.inner then [] else ["body"]) ++
+  (if d'.canon == d.canon then [] else ["body"]) ++
   (if d'.namedV == d.namedV && d'.namedE == d.namedE then [] else ["named-results"]) ++
   (if d.specDoc == [] || d'.specDoc == d.specDoc then [] else ["doc"])
 
@@ -82,7 +83,7 @@ def declViolations (cfg : Cfg) (before : Pkg) (sch : Schema) (after : List After
       f.decls.zipIdx.flatMap fun dj =>
         let d := dj.1
         if d.isImport then []
-        else if a.file.decls.any (fun d' => d'.src == d.src) then []
+        else if (allDecls (afterPkg after)).any (fun kd => kd.2.src == d.src) then []   -- kept verbatim (in whichever file)
         else if hasInfix d.src a.remaining then []
         else if keptAsMethod cfg sch (afterPkg after) d then []
         else [.declLost f.name dj.2 d.name]
